@@ -327,6 +327,8 @@ def o7(W, ob):
         pass
 
 
+from . import helpers
+
 OBLIGATIONS = [
     ('C12.O1', 'typestate', 'the transition relation extracted from all stores to UdpProtocol.state with their guards is the '
      'reviewed one; remote_magic is stored only on the ->Running edge.', o1),
@@ -342,4 +344,5 @@ OBLIGATIONS = [
      '`while len > MAX_EVENT_QUEUE_SIZE { pop_front }`.', o6),
     ('C12.O7', 'Disconnected is terminal', 'both handle_event implementations stop the endpoint on Event::Disconnected; poll/handle_message '
      'emit events only while Running.', o7),
+    ('C12.H', 'helpers the rules above rely on', 'the bodies of the helpers named by this property\'s rules compute what the rules assume (protocol_state_tests); see rules/helpers.py', helpers.bundle('protocol_state_tests')),
 ]
